@@ -28,7 +28,7 @@ from vlib.common import ToolError, build_wild, log, save_replay, scratch, sh, tr
 
 PROP = "C22"
 META = {
-    "ready": False,
+    "ready": True,
     "level": "exploration",
     "technique": "TLA+ outcome oracle plus a TLC-enumerated mutation grammar (carrier x locus x mutation); every descriptor applied to valid seed inputs and run through the real wild (forked and --no-fork) under a hard timeout, outcomes classified and panic sites extracted",
     "level_text": "TLC enumerates the full product of 9 carriers x structural loci (ELF header / section header / symbol / relocation / group / note / eh_frame / compressed header / merge fields, program headers, dynamic entries, version tables, GNU hash header, archive header fields and symbol table, thin-archive member paths, token positions of four text formats, every command-line option) x mutations (0, 1, -1, max, bound-1, bound, bound+1, swap with neighbour, truncate here; token deletions/insertions, unbalanced braces/quotes/comments, huge numbers, non-UTF-8; missing/empty/garbage parameters, @file recursion). The harness applies each descriptor to a seed that links unmutated and requires Outcome in {Success, Diagnostic(exit != 0 and a message)} and termination, in both process modes. Quick: seeded sample within a time budget; thorough: the whole product.",
